@@ -13,7 +13,7 @@
    components[*].proportion, data_components(), data_composite()['sum'], a+b and a*n report (verdict), and the
    preprocessor's actual output and the accept/reject outcome are compared with the machine (conformance / drift).
 """
-import json, os, random, sys, time
+import json, operator, os, random, sys, time
 from . import common as C
 from . import terms as T
 
@@ -168,6 +168,12 @@ def build_items(shapes, tier, sd, A):
             items.append(item(toks, "addin", i, toks2=shapes[rnd.randrange(nshape)], v=rnd.choice(VARS4[:2]), n=[rnd.randint(1, 5), 1]))
         elif i % 13 == 9:
             items.append(item(toks, "perturb", i))
+        elif i % 17 == 2:
+            items.append(item(toks, "iadd", i, toks2=shapes[rnd.randrange(nshape)]))
+        elif i % 17 == 4:
+            items.append(item(toks, "imul", i, n=rnd.choice(mul_ns)))
+        elif i % 17 == 6:
+            items.append(item(toks, "addel", i, v=rnd.choice(VARS4[:2]), n=[rnd.randint(1, 5), 1]))
         else:
             items.append(item(toks, "none", i))
     # histories on the smallest formulas, systematically: the formula, an in-place add() of each of two species, then
@@ -251,6 +257,19 @@ def replay_formula(rec):
             elif op == "mul":
                 n = it["n"]
                 r = s * (n[0] if n[1] == 1 else n[0] / n[1])
+                A.observe_substance(r, inv, "R.", obs)
+                A.observe_substance(s, inv, "A2.", obs)
+            elif op == "iadd":
+                b = A.Substance(A.render(it["toks2"], bind), natural=nat)
+                r = operator.iadd(s, b)                           # s += b
+                A.observe_substance(r, inv, "R.", obs)
+                A.observe_substance(b, inv, "B.", obs)
+            elif op == "imul":
+                n = it["n"]
+                r = operator.imul(s, n[0] if n[1] == 1 else n[0] / n[1])      # s *= n
+                A.observe_substance(r, inv, "R.", obs)
+            elif op == "addel":
+                r = s + A.Element(A.sp_text(bind[it["v"]]), proportion=it["n"][0], natural=nat)
                 A.observe_substance(r, inv, "R.", obs)
                 A.observe_substance(s, inv, "A2.", obs)
             elif op == "addin":
